@@ -747,11 +747,22 @@ def stream_expr(c):
             if sv != rv:
                 c.count('expr-simplified-differs')
                 culprit = first_unsound(node, args)
+                direct = None
+                if head in ('inRange', 'mod', 'min', 'max', 'normDim'):
+                    try:
+                        res = node._simplified()
+                        if res is not None and any(res is d for d in node.dependencies):
+                            direct = flat_ints(evaluate(res, args))
+                    except Exception:
+                        direct = None
                 if culprit:
                     c.failing_input('intbounds-unsound:' + culprit, 'simplified value differs and a sub-node leaves its announced range: %s' % tok, dict(replay, simplified_value=sv))
+                elif direct is not None and direct != rv:
+                    c.failing_input('consumer-unsound:' + type(node).__name__, '%s._simplified returns an operand with a different value: %s' % (type(node).__name__, tok), dict(replay, simplified_value=sv, operand_value=direct))
                 else:
-                    c.broken_no_input('consumer:simplified', 'simplified DAG evaluates differently although no node leaves its range (not a C06 matter unless a range consumer did it): %s' % tok,
-                                      dict(replay, simplified_value=sv))
+                    # a value-changing simplification that involves no range (e.g. Take with negative indices, which numpy wraps and the
+                    # rewrite rules do not): the subject of C01/C02, not of C06
+                    c.count('expr-simplified-differs-without-range-culprit')
     c.sample(dict(stream='expr', tokens=meta[0][0], model=ans[0]))
     for k in ('bounds', 'deps', 'eval', 'shape'):
         c.obligation('corr:expr:' + k, ndis[k] == 0, 'correspondence', '%d expressions, %d disagreements' % (len(meta), ndis[k]))
